@@ -60,7 +60,10 @@ def jobs_c01(tier, seed):
         scen("barrier-matrix", "C01", "dbg", "c06"),
         scen("barrier-matrix", "C01", "rel", "c06"),
         miri_rnd("C01", tier),
-        dict(name="bex", bin="gcmon", flavour="dbg", args=["bex", "--prop", "C01", "--states", size(tier, 1500, 40000), "--depth", size(tier, 8, 14)]),
+        # bounded-exhaustive explorer over three universes (a smaller alphabet reaches deeper)
+        dict(name="bex-1node", bin="gcmon", flavour="dbg", args=["bex", "--prop", "C01", "--nodes", 1, "--allocs", 3, "--noweak", "--states", size(tier, 4000, 60000), "--depth", size(tier, 10, 16)]),
+        dict(name="bex-2nodes", bin="gcmon", flavour="dbg", args=["bex", "--prop", "C01", "--nodes", 2, "--allocs", 3, "--states", size(tier, 1500, 40000), "--depth", size(tier, 8, 14)]),
+        dict(name="bex-3nodes", bin="gcmon", flavour="rel", args=["bex", "--prop", "C01", "--nodes", 3, "--allocs", 4, "--states", size(tier, 1500, 40000), "--depth", size(tier, 8, 14)]),
     ] + ([miri_scen("C01", "c06", tier), vg("random-vg", ["random", "--prop", "C01", "--count", 2000, "--pacing-cycle"])] if tier == T else [])
 
 
@@ -74,6 +77,10 @@ def jobs_simple(prop, profile="general", matrix=None, miri_tables=None):
         ]
         if profile != "general":
             js.append(rnd("random-general", prop, "dbg", n // 2))
+        if prop == "C02":
+            # end-to-end exactness through every provided container and through trait objects:
+            # weakly held targets must be gone after two cycles, strongly held ones alive
+            js.append(trc("container-survival", "C02", "dbg", "impls", shards=1, extra=["--only", "survival:containers"]))
         if prop in ("C08", "C10", "C02", "C05"):
             # the contract keeps holding on the calls that follow a caught panic
             js.append(rnd("random-faults", prop, "dbg", n // 2, profile=profile, extra=["--faults"]))
@@ -100,6 +107,10 @@ def jobs_c09(tier, seed):
         rnd("pace", "C09", "rel", n, profile="pace", length=200, extra=["--pacing", 3]),
         rnd("pace-default", "C09", "dbg", n // 4, profile="pace", length=200, extra=["--pacing", 1]),
         rnd("pace-stw", "C09", "dbg", n // 4, profile="pace", length=200, extra=["--pacing", 2]),
+        # small heaps, storms of explicit barriers (all six forms) between cycle_debt calls: the credit
+        # accounting of the barriers decides whether the cycle completes within the bound
+        rnd("pace-storm", "C09", "dbg", n, profile="pace", length=300, extra=["--pacing", 3, "--storm"]),
+        rnd("pace-storm", "C09", "rel", n, profile="pace", length=300, extra=["--pacing", 3, "--storm"]),
         rnd("random", "C09", "dbg", n * 5),
         rnd("random", "C09", "rel", n * 5),
     ]
@@ -146,8 +157,8 @@ def jobs_lay(prop, table):
     return f
 
 
-def trc(name, prop, flavour, table, features=None, shards=2):
-    j = dict(name=name, bin="tracerec", flavour=flavour, args=["--prop", prop, "--table", table], shards=shards)
+def trc(name, prop, flavour, table, features=None, shards=2, extra=()):
+    j = dict(name=name, bin="tracerec", flavour=flavour, args=["--prop", prop, "--table", table] + list(extra), shards=shards)
     if features:
         j["features"] = features
         j["only_bins"] = ["tracerec"]
